@@ -209,8 +209,8 @@ fn gen_impl_delegation_trait_defs(
                 #(#impl_sub_attributes)*
                 #trait_def
 
-                pub trait #delegation_ident<T> {
-                    type Target: #impl_trait_ident<T>;
+                pub trait #delegation_ident<EntraitT> {
+                    type Target: #impl_trait_ident<EntraitT>;
                 }
             }))
         }
